@@ -45,13 +45,22 @@ def load_index():
         for b in json.load(open(bi))["benign"]:
             for prop in b["properties"]:
                 ms.append({"name": "benign-%s-%s" % (b["name"], prop), "property": prop, "rule": None,
-                           "configs": "dbg,rel", "patch": os.path.join(BENIGN, b["name"] + ".patch"),
+                           "configs": "dbg", "patch": os.path.join(BENIGN, b["name"] + ".patch"),
                            "expect": "silent"})
     return ms
 
 
 def _scratch_copy(dst):
     subprocess.check_call(["rsync", "-a", "--exclude", "target", "--exclude", ".git", extract.REPO + "/", dst + "/"])
+
+
+_SCRATCH_FACTS = set()
+
+
+def _drop_scratch_facts():
+    for th in list(_SCRATCH_FACTS):
+        shutil.rmtree(os.path.join(extract.WORK, "facts", th), ignore_errors=True)
+        _SCRATCH_FACTS.discard(th)
 
 
 def run_one(m, worker=0, keep=False):
@@ -93,7 +102,7 @@ def run_one(m, worker=0, keep=False):
     finally:
         shutil.rmtree(tmp, ignore_errors=True)
         if th:
-            shutil.rmtree(os.path.join(extract.WORK, "facts", th), ignore_errors=True)
+            _SCRATCH_FACTS.add(th)      # removed at the end of run(): other variants of the same tree reuse them
 
 
 def run(mutants, workers=4, out=sys.stdout):
@@ -112,13 +121,14 @@ def run(mutants, workers=4, out=sys.stdout):
 
     with concurrent.futures.ThreadPoolExecutor(max_workers=workers) as ex:
         futs = {}
-        for i, m in enumerate(mutants):
+        for i, m in enumerate(sorted(mutants, key=lambda m: (m.get("patch") or m["name"], m["property"]))):
             futs[ex.submit(job, m)] = m
         for f in concurrent.futures.as_completed(futs):
             r = f.result()
             results.append(r)
             print("  selftest %-40s %-12s %.1fs" % (r["name"], r["status"], r["wall_s"]), file=out)
             out.flush()
+    _drop_scratch_facts()
     return sorted(results, key=lambda r: r["name"])
 
 
@@ -128,7 +138,7 @@ def run_for_property(prop, out=sys.stdout):
         print("selftest: no seeded variants registered for %s" % prop, file=out)
         return 0
     t0 = time.time()
-    res = run(ms, workers=int(os.environ.get("VERIF_SELFTEST_WORKERS", "4")), out=out)
+    res = run(ms, workers=int(os.environ.get("VERIF_SELFTEST_WORKERS", "6")), out=out)
     fired = [r for r in res if r["status"] == "fired"]
     silent = [r for r in res if r["status"] == "silent"]
     other = [r for r in res if r["status"] not in ("fired", "silent")]
@@ -178,7 +188,7 @@ if __name__ == "__main__":
     if broken:
         print("baseline broken for %s; fix the rules first" % sorted(broken))
         sys.exit(2)
-    res = run(ms, workers=int(os.environ.get("VERIF_SELFTEST_WORKERS", "4")))
+    res = run(ms, workers=int(os.environ.get("VERIF_SELFTEST_WORKERS", "6")))
     bad = [r for r in res if r["status"] != "fired"]
     for r in bad:
         print("==", r["name"], r["status"])
